@@ -16,6 +16,7 @@ value    := null | int | float | bool | str | {"date": "YYYY-MM-DD"} | {"datetim
 from __future__ import annotations
 
 import datetime as _dt
+import decimal as _decimal
 import os
 import sys
 import warnings
@@ -59,7 +60,8 @@ def encode_val(v):
         return {"date": v.isoformat()}
     if isinstance(v, _dt.timedelta):
         return {"duration_us": int(v / _dt.timedelta(microseconds=1))}
-    if hasattr(v, "is_integer") and not isinstance(v, (int, float)):  # Decimal
+    if isinstance(v, _decimal.Decimal):
+        # SQLite returns Decimal(38,10) for int / int; section 4.6: decimals are compared as floats
         return float(v)
     return v
 
